@@ -111,6 +111,10 @@ func runC06(c *Ctx) {
 	}
 	g, r := c.G, c.R
 	w := &c06world{c: c}
+	// pooled objects (checked entries, buffers) are watched for double puts and
+	// use after put: a terminal call is the place where a call path is left
+	// half-way, and what it hands back twice is what swallows a later one
+	defer guardOn(c)()
 	clk := zsim.NewSimClock(r, drawEpoch(g))
 	// ---- core stack ----
 	var cores []zapcore.Core
@@ -321,6 +325,22 @@ func runC06(c *Ctx) {
 					zsim.Yield(zsim.KOp, nil)
 				}
 			}
+		})
+	}
+	// another goroutine of the application that was ended by a terminal entry
+	// of its own: a sibling logger whose fatal or panic hook is the built-in
+	// WriteThenGoexit (the documented way to exercise terminal call sites). What
+	// it leaves behind must not keep the terminal call under test from acting.
+	if !(lvl == zapcore.FatalLevel && fatalHook == hkGoexit) && g.Chance(3) {
+		viaPanic := g.Chance(3)
+		c.Describe("goexit-sibling: a task ended by WriteThenGoexit (panic-level=%v) runs beside the terminal call", viaPanic)
+		r.Go("gx", func() {
+			if viaPanic {
+				lg.WithOptions(zap.WithPanicHook(zapcore.WriteThenGoexit)).Panic("goexit-sibling")
+			} else {
+				lg.WithOptions(zap.WithFatalHook(zapcore.WriteThenGoexit)).Fatal("goexit-sibling")
+			}
+			c.Fail("C06: a call whose hook is WriteThenGoexit returned", "the sibling goroutine went on after its terminal call")
 		})
 	}
 	// flush ticks of the buffered sinks: one more party that syncs on its own
